@@ -346,8 +346,9 @@ class C34(Check):
                 self.skip("undecidable:" + qn)
         dep = [(qn, r) for (qn, w, r) in answers if w and (qn, True) in judged and (qn, False, r) not in answers]
         if dep and not atomic:
+            key = tuple(engine.sx(s) for s in ar.asm_statements(syms, names))
             for qn, r in dep:
-                self.nontriv((rec, tuple(ar.asm_statements(syms, names) and [engine.sx(s) for s in ar.asm_statements(syms, names)]), qn))
+                self.nontriv((rec, key, qn))
             self.sample({"expr": engine.sx(rec), "assumptions": ar.asm_str(syms, names), "answers": {qn: r for qn, r in dep},
                          "assignments": [ar.assign_str(a) for a in sat]})
 
